@@ -115,33 +115,39 @@ package ssh
 
 //@ func appendU16
 //@ props C24
-//@ fresh result
+//@ modifies buf[len(buf):len(buf)+2]
+//@ ensures (sameobj(result, buf) && off(result) == off(buf)) || newobj(result)
 //@ ensures appended(result, buf, 2) && result[len(buf)] == n / 256 && result[len(buf)+1] == n % 256
 
 //@ func appendU32
 //@ props C24
-//@ fresh result
+//@ modifies buf[len(buf):len(buf)+4]
+//@ ensures (sameobj(result, buf) && off(result) == off(buf)) || newobj(result)
 //@ ensures appended(result, buf, 4) && be32(result[len(buf):]) == n
 
 //@ func appendU64
 //@ props C24
-//@ fresh result
+//@ modifies buf[len(buf):len(buf)+8]
+//@ ensures (sameobj(result, buf) && off(result) == off(buf)) || newobj(result)
 //@ ensures appended(result, buf, 8) && bytes64(result[len(buf):], n)
 
 //@ func appendInt
 //@ props C24
-//@ fresh result
+//@ modifies buf[len(buf):len(buf)+4]
+//@ ensures (sameobj(result, buf) && off(result) == off(buf)) || newobj(result)
 //@ ensures appended(result, buf, 4) && be32(result[len(buf):]) == n % 4294967296
 
 //@ func appendString
 //@ props C24
-//@ fresh result
+//@ modifies buf[len(buf):len(buf)+4+len(s)]
+//@ ensures (sameobj(result, buf) && off(result) == off(buf)) || newobj(result)
 //@ ensures appended(result, buf, 4 + len(s)) && be32(result[len(buf):]) == len(s) % 4294967296
 //@ ensures forall(i, 0, len(s), result[len(buf)+4+i] == s[i])
 
 //@ func appendBool
 //@ props C24
-//@ fresh result
+//@ modifies buf[len(buf):len(buf)+1]
+//@ ensures (sameobj(result, buf) && off(result) == off(buf)) || newobj(result)
 //@ ensures appended(result, buf, 1) && result[len(buf)] == ite(b, 1, 0)
 
 // ---- C35: channel window accounting (RFC 4254 section 5.2) ----
@@ -155,12 +161,26 @@ package ssh
 //@ props C35
 //@ requires w.Cond != nil
 //@ ensures implies(win == 0, result)
+// every writer blocked in reserve is woken when window is added (Broadcast, not Signal)
+//@ modifies ghost(w.Cond, wakeall)
+//@ ensures implies(result && win > 0, ghost(w.Cond, wakeall) > old(ghost(w.Cond, wakeall)))
+// granted: ghost total of the window the peer has granted so far; by definition
+// add credits it with win when it accepts the adjustment
+//@ modifies ghost(w, granted)
+//@ assumed_ensures ghost(w, granted) == old(ghost(w, granted)) + ite(result, win, 0)
 //@ assert_at "w.win += win" w.win + win <= 4294967295
 //@ canary assert_at "w.win += win" w.win + win < 4294967295
+
+//@ func (*window).close
+//@ props C35
+//@ requires w.Cond != nil
+//@ modifies ghost(w.Cond, wakeall)
+//@ ensures ghost(w.Cond, wakeall) > old(ghost(w.Cond, wakeall))
 
 //@ func (*window).reserve
 //@ props C35
 //@ requires w.Cond != nil
+//@ modifies ghost(w.Cond, wakeall)
 //@ ensures result0 <= win
 //@ assert_at "w.win -= win" win <= w.win
 //@ canary ensures result0 == win
@@ -186,3 +206,50 @@ package ssh
 //@ ensures implies(ok && (be32(in) == 0 || in[4] < 128), bv(out) == spec.beval(row(in), off(in) + 4, be32(in)))
 //@ ensures implies(ok && be32(in) > 0 && in[4] >= 128, bv(out) < 0)
 //@ loop 1 invariant -1 <= rangeindex && rangeindex < len(notBytes)
+
+// ---- C35: what the sender-side window is credited with ----
+//@ pred be32(b) = b[0]*16777216 + b[1]*65536 + b[2]*256 + b[3]
+
+//@ func decode
+//@ trusted
+//@ note reflection-driven Unmarshal, not verified: assumed to return, for message number 91, a *channelOpenConfirmMsg and for 93 a *windowAdjustMsg (and only then), whose uint32 fields are the big-endian words of the packet in declaration order
+//@ fresh result0
+//@ ensures implies(result1 == nil, result0 != nil)
+//@ ensures implies(result1 == nil, iff(typeis(result0, "*golang.org/x/crypto/ssh.channelOpenConfirmMsg"), packet[0] == 91))
+//@ ensures implies(result1 == nil, iff(typeis(result0, "*golang.org/x/crypto/ssh.windowAdjustMsg"), packet[0] == 93))
+//@ ensures implies(result1 == nil && packet[0] == 91, result0.(*channelOpenConfirmMsg) != nil)
+//@ ensures implies(result1 == nil && packet[0] == 93, result0.(*windowAdjustMsg) != nil)
+//@ ensures implies(result1 == nil && packet[0] == 91, len(packet) >= 17 && result0.(*channelOpenConfirmMsg).MyWindow == be32(packet[9:13]) && result0.(*channelOpenConfirmMsg).MaxPacketSize == be32(packet[13:17]))
+//@ ensures implies(result1 == nil && packet[0] == 93, len(packet) == 9 && result0.(*windowAdjustMsg).AdditionalBytes == be32(packet[5:9]))
+
+//@ func (*channel).handleData
+//@ trusted
+//@ note over-approximated at this call site: may change any memory
+//@ modifies heap
+//@ func (*channel).sendMessage
+//@ trusted
+//@ modifies heap
+//@ func (*channel).close
+//@ trusted
+//@ modifies heap
+//@ func (*chanList).remove
+//@ trusted
+//@ modifies heap
+//@ func (*buffer).eof
+//@ trusted
+//@ modifies heap
+
+// The sender-side window is credited with exactly what the peer's message says:
+// the initial window of the open confirmation, the additional bytes of an adjustment.
+//@ func (*channel).handlePacket
+//@ props C35
+//@ requires len(packet) > 0 && ch.mux != nil && ch.remoteWin.Cond != nil
+//@ modifies heap
+// open confirmation: the advertised initial window, or nothing if the window refuses it (add's result is not looked at there)
+//@ ensures implies(result == nil && old(packet[0]) == 91, ghost(&ch.remoteWin, granted) == old(ghost(&ch.remoteWin, granted)) + old(be32(packet[9:13])) || ghost(&ch.remoteWin, granted) == old(ghost(&ch.remoteWin, granted)))
+// window adjustment: exactly the additional bytes (a refused adjustment is an error)
+//@ ensures implies(result == nil && old(packet[0]) == 93, ghost(&ch.remoteWin, granted) == old(ghost(&ch.remoteWin, granted)) + old(be32(packet[5:9])))
+//@ ensures implies(result == nil && old(packet[0]) == 91, ch.maxRemotePayload == old(be32(packet[13:17])))
+//@ canary ensures implies(result == nil && old(packet[0]) == 91, ghost(&ch.remoteWin, granted) == old(ghost(&ch.remoteWin, granted)))
+//@ canary ensures implies(result == nil && old(packet[0]) == 93, ghost(&ch.remoteWin, granted) == old(ghost(&ch.remoteWin, granted)))
+//@ canary ensures !(result == nil && old(packet[0]) == 91)
